@@ -4,7 +4,7 @@
    invariants; a step never returns a half-applied state. *)
 From Coq Require Import List ZArith Bool.
 From JSL Require Import Base.Res Base.ListX SM.Types SM.Util SM.Handler SM.Step SM.Middleware SM.Inv SM.Example SM.ExampleHang
-  SMP.Offers SMP.Main SMP.Reflect SMP.StepInv SMP.Atomic SMP.Clock SMP.ClockMain SMP.Hang SMP.LiftProv SMP.ProvBatch SMP.OffersValid SMP.NoFail SM.Events SMP.AllEvents.
+  SMP.Offers SMP.Main SMP.Reflect SMP.StepInv SMP.Atomic SMP.Clock SMP.ClockMain SMP.Hang SMP.LiftProv SMP.ProvBatch SMP.OffersValid SMP.NoFail SM.Events SMP.AllEvents SMP.AllClauses SMP.Claims.
 Import ListNotations.
 
 (* accepting the offered transition cannot be rejected by the transition tables *)
@@ -117,4 +117,23 @@ Theorem C05_monitor_vector_differs_in_the_dispatch_position_only :
     /\ forall k, k <> 7 -> nth_error (event_vector_up_to_readiness i x tr y) k = nth_error (event_vector i x tr y) k.
 Proof. exact vector_shape. Qed.
 Print Assumptions C05_monitor_vector_differs_in_the_dispatch_position_only.
+
+(* "... and yields a state that again satisfies all structural invariants", after every INDIVIDUAL internal transition: every state clause the monitors
+   print for the implementation - job placement and locations, what machines and AGVs hold, claims, capacities and flags, schedule feasibility,
+   nothing overdue, nothing recorded in the future, busy machines and their PROCESSING records, outage records, AGV phases and load, the store of
+   stochastic times, and the history clauses (durations, travel gaps, setup gaps, time dependencies, pre-buffer contents) - holds in every
+   micro-state of every decision of every run of every instance (all of clause_vector except the two descriptions of initial states and the
+   superseded nodep_b). A conjunction of the run-level theorems of SMP/, with busy_op_b and proc_inner_b reflected here for the first time. *)
+Theorem C05_every_micro_state_satisfies_every_state_clause_every_instance :
+  forall (sigma : oracle) (i : inst) (tool0 : nat -> nat) (fuel : nat) (x0 : state) (joker0 : Z) (ta : bool) (r : result) (m : mw)
+         (a : Z) (r' : result) (m' : mw) (lg : mlog),
+    inst_nonneg_b i = true ->
+    clock_b x0 = true -> wfs_b i x0 = true -> fresh2_b i x0 = true -> nodep_b x0 = true -> pre_ok_b x0 = true ->
+    agv_phase_b x0 = true -> agv_load_b x0 = true -> claims_b x0 = true -> depk_b x0 = true ->
+    outages_b x0 && outage_nonneg_b x0 = true ->
+    (forall m0 ms, nth_error (s_machs x0) m0 = Some ms -> m_tool ms = tool0 m0) ->
+    reach sigma i fuel x0 joker0 ta r m -> mw_step sigma i fuel r m a = MOk r' m' lg ->
+    forall tr y, In (tr, y) lg -> forallb (fun b => b) (clause_vector_live i y) = true.
+Proof. intros sigma i tool0 fuel x0 joker0 ta r m a r' m' lg Hnn. apply (run_micro_clause_vector sigma i Hnn). Qed.
+Print Assumptions C05_every_micro_state_satisfies_every_state_clause_every_instance.
 
